@@ -99,6 +99,10 @@ def run(ctx):
     ok2, rej2 = ctx.validate_traces(tr2, "TraceContext", CTX_TRACE, max_rejects=6)
     for x in rej2:
         ev = json.loads(x["trace"][x["at"] - 1])
+        if ev.get("op") == "ctxlit":
+            ctx.violation("C13|context|marker-not-recognised", "a directory holding only %r is reported as generic although the analyzer's detectors name "
+                          "that file" % ev["name"], ev, name="ctx")
+            continue
         kind = "panic" if ev["panic"] else "nondeterministic" if (ev["types"] != ev["types2"] or ev["types"] != ev["types3"] or ev["boostid"] != ev["boostid2"]
                                                                   or ev["boostid"] != ev["boostid3"]) else "boosts" if any(b < 1000 for b in ev["boosts"]) else "types"
         ctx.violation("C13|context|%s" % kind, "directory %s (package.json %s, Makefile %s): types %s / %s / %s, boosts %s" %
